@@ -247,7 +247,7 @@ def w_landmarks(ctx, rng, i):
                 else:
                     e = float(np.abs(b["PTS"].points - pc.points).max())
                     ctx.err("pts_round_trip", e)
-                    if e > 5e-4 + 1e-9:
+                    if not (e <= 5e-4 + 1e-9):
                         ctx.fail("pts_round_trip_exceeds_three_decimals", cls="pts", err=e)
     ctx.count_case(("ljson", "single" if single else "manager", d, sp), nontrivial=True,
                    sample={"format": "ljson", "spelling": sp, "groups": {k: type(v).__name__ for k, v in groups.items()}} if i < 4 else None)
